@@ -375,8 +375,9 @@ def r6_unconditional_invalidation(idx, r, only=None):
             elif fq in MAY_SKIP_INVALIDATION:
                 r.ok(f"{f.qualname}:listed-exception", f, msg=MAY_SKIP_INVALIDATION[fq])
             else:
-                r.violate(f"{f.qualname}:conditional-invalidation", f, "invalidates its own cache on one path and leaves on another without doing so; one of the two is wrong "
-                          "(not among the listed exceptions)", node=bad[0].node if bad[0].node is not None else f.node)
+                # a function this table has not seen: a path contradiction is a lead, not a verdict (Engler et al.: read before arming)
+                r.undecided(f"{f.qualname}:conditional-invalidation", f, "invalidates its own cache on one path and leaves on another without doing so; not among the functions "
+                            "confirmed by reading (MUST_INVALIDATE / MAY_SKIP_INVALIDATION) - review and add it to one of the tables", node=bad[0].node if bad[0].node is not None else f.node)
 
 
 def run(idx, chk):
